@@ -951,7 +951,9 @@ def check_proto(ck, prog):
                     other = [x for x in blk.succs if x != s_]
                     if s_ is not None and (s_ == b.id or s_ in doms_.get(b.id, ())) and other and other[0] != s_:
                         # b is reached through only one edge of a test of end_was_reached
-                        if not (other[0] == b.id or other[0] in doms_.get(b.id, ())):
+                        ob_ = f.blocks.get(other[0])
+                        dead = ob_ is not None and other[0] != f.exit and not [x for x in ob_.succs if x is not None]
+                        if not (other[0] == b.id or other[0] in doms_.get(b.id, ())) and not dead:
                             dep = True
     ck.ob("C15-PROTO", "buffer-always-filtered", bool(cf) and not dep, common.where(f),
           "simple_code: call_filter(coder->buffer) does not depend on end_was_reached" if cf and not dep else
